@@ -189,7 +189,7 @@ func (g G) refAddr(simple bool) string {
 	case 3:
 		if !simple && g.Chance(45) {
 			// declarations two and three levels below the resource
-			return Pick(g, refTypes) + "." + n + "." + Pick(g, []string{"disk[0]", "disk[1]", "disk[0].gb", "disk[1].path", "conn.host", `tags["k"]`, "disk[1].gb", `tags["a b"]`, `tags["say \"hi\""]`, `tags["k"]`})
+			return Pick(g, refTypes) + "." + n + "." + Pick(g, []string{"disk[0]", "disk[1]", "disk[0].gb", "disk[1].path", "conn.host", `tags["k"]`, "disk[1].gb", `tags["a b"]`, `tags["say \"hi\""]`, `tags["k"]`, "any.k", "any.k.z", "any[0].k"})
 		}
 		return Pick(g, refTypes) + "." + n + "." + Pick(g, []string{"name", "size", "tags", "ami", "aws_id", "disk", "conn", "missing"})
 	case 4:
